@@ -81,7 +81,7 @@ func verifC20a() {
 func verifC20b() { // decorator callbacks
 	verifC20run(&vProfile{name: "C20b", clauses: []string{"C20."},
 		maxScopes: 2, nRegs: 2, maxParams: 1, maxResults: 1, pForms: 1, rForms: 1, names: 1, callbacks: true, decorators: 1,
-		faults: 2, recoverOpt: 0, nInvokes: 2, invParams: 1, distinct: true, noMissing: true})
+		faults: 2, recoverOpt: 0, nInvokes: 1, invParams: 1, distinct: true, noMissing: true})
 }
 
 func init() {
